@@ -176,58 +176,88 @@ pub struct FRun {
     pub panic: Option<String>,
 }
 
+fn frag_step(m: &mut FragmentedMuxer, op: &FOp) -> FRes {
+    match op {
+        FOp::Write { pts, dts, data, sync } => match guarded(|| m.write_video(*pts, *dts, data, *sync)) {
+            Ok(Ok(())) => FRes::WriteOk,
+            Ok(Err(e)) => {
+                let display = guarded(|| {
+                    let _ = format!("{:>4.3}|{:<80}|{:*^7}|{:#?}", e, e, e, e);
+                    format!("{} / {:?}", e, e)
+                }).unwrap_or_else(|p| format!("<fmt panicked {}>", p));
+                // tolerant of error variants added later (the harness must keep compiling against a changed tree)
+                #[allow(unreachable_patterns)]
+                match e {
+                    FragmentedError::NonMonotonicDts { prev_dts, curr_dts } => FRes::WriteErr { prev: prev_dts, curr: curr_dts, display },
+                    _ => FRes::WriteErr { prev: u64::MAX, curr: u64::MAX, display },
+                }
+            }
+            Err(p) => FRes::Panic(p),
+        },
+        FOp::Flush => match guarded(|| m.flush_segment()) {
+            Ok(s) => FRes::Flush(s),
+            Err(p) => FRes::Panic(p),
+        },
+        FOp::Ready => match guarded(|| m.ready_to_flush()) {
+            Ok(b) => FRes::Ready(b),
+            Err(p) => FRes::Panic(p),
+        },
+        FOp::DurMs => match guarded(|| m.current_fragment_duration_ms()) {
+            Ok(b) => FRes::DurMs(b),
+            Err(p) => FRes::Panic(p),
+        },
+        FOp::Init => match guarded(|| m.init_segment()) {
+            Ok(b) => FRes::Init(b),
+            Err(p) => FRes::Panic(p),
+        },
+    }
+}
+
 pub fn run_frag(c: &FCfg, ops: &[FOp]) -> FRun {
-    let mut results = Vec::with_capacity(ops.len());
-    let mut panic = None;
-    let mut m = match build_frag(c) {
-        Ok(Ok(m)) => m,
-        Ok(Err(e)) => {
-            return FRun { built: false, build_err: Some(e), results: ops.iter().map(|_| FRes::Skipped).collect(), panic: None }
+    run_frag_lockstep(&[(c, ops)], &[]).pop().unwrap()
+}
+
+/// Several fragmented muxers alive at once on one thread, taking turns one call at a time in the order given by `schedule`
+/// (indices into `runs`; exhausted histories are skipped; what is left afterwards runs history by history).
+pub fn run_frag_lockstep(runs: &[(&FCfg, &[FOp])], schedule: &[u8]) -> Vec<FRun> {
+    let mut out: Vec<FRun> = Vec::new();
+    let mut muxers: Vec<Option<FragmentedMuxer>> = Vec::new();
+    for (c, ops) in runs {
+        match build_frag(c) {
+            Ok(Ok(m)) => {
+                muxers.push(Some(m));
+                out.push(FRun { built: true, build_err: None, results: Vec::with_capacity(ops.len()), panic: None });
+            }
+            Ok(Err(e)) => {
+                muxers.push(None);
+                out.push(FRun { built: false, build_err: Some(e), results: ops.iter().map(|_| FRes::Skipped).collect(), panic: None });
+            }
+            Err(p) => {
+                muxers.push(None);
+                out.push(FRun { built: false, build_err: None, results: ops.iter().map(|_| FRes::Skipped).collect(), panic: Some(p) });
+            }
         }
-        Err(p) => {
-            return FRun { built: false, build_err: None, results: ops.iter().map(|_| FRes::Skipped).collect(), panic: Some(p) }
-        }
-    };
-    for op in ops {
-        if panic.is_some() {
-            results.push(FRes::Skipped);
+    }
+    let n = runs.len().max(1);
+    let mut order: Vec<usize> = schedule.iter().map(|k| *k as usize % n).collect();
+    for (k, (_, ops)) in runs.iter().enumerate() {
+        order.extend(std::iter::repeat(k).take(ops.len()));
+    }
+    for k in order {
+        let ops = runs[k].1;
+        let i = out[k].results.len();
+        if i >= ops.len() || !out[k].built {
             continue;
         }
-        let r = match op {
-            FOp::Write { pts, dts, data, sync } => match guarded(|| m.write_video(*pts, *dts, data, *sync)) {
-                Ok(Ok(())) => FRes::WriteOk,
-                Ok(Err(e)) => {
-                    let display = guarded(|| format!("{} / {:?}", e, e)).unwrap_or_else(|p| format!("<fmt panicked {}>", p));
-                    // tolerant of error variants added later (the harness must keep compiling against a changed tree)
-                    #[allow(unreachable_patterns)]
-                    match e {
-                        FragmentedError::NonMonotonicDts { prev_dts, curr_dts } => FRes::WriteErr { prev: prev_dts, curr: curr_dts, display },
-                        _ => FRes::WriteErr { prev: u64::MAX, curr: u64::MAX, display },
-                    }
-                }
-                Err(p) => FRes::Panic(p),
-            },
-            FOp::Flush => match guarded(|| m.flush_segment()) {
-                Ok(s) => FRes::Flush(s),
-                Err(p) => FRes::Panic(p),
-            },
-            FOp::Ready => match guarded(|| m.ready_to_flush()) {
-                Ok(b) => FRes::Ready(b),
-                Err(p) => FRes::Panic(p),
-            },
-            FOp::DurMs => match guarded(|| m.current_fragment_duration_ms()) {
-                Ok(b) => FRes::DurMs(b),
-                Err(p) => FRes::Panic(p),
-            },
-            FOp::Init => match guarded(|| m.init_segment()) {
-                Ok(b) => FRes::Init(b),
-                Err(p) => FRes::Panic(p),
-            },
-        };
-        if let FRes::Panic(p) = &r {
-            panic = Some(p.clone());
+        if out[k].panic.is_some() {
+            out[k].results.push(FRes::Skipped);
+            continue;
         }
-        results.push(r);
+        let r = frag_step(muxers[k].as_mut().unwrap(), &ops[i]);
+        if let FRes::Panic(p) = &r {
+            out[k].panic = Some(p.clone());
+        }
+        out[k].results.push(r);
     }
-    FRun { built: true, build_err: None, results, panic }
+    out
 }
